@@ -92,6 +92,10 @@ def corpus():
     add("counter_quotient", pg.P1([["assign", "a", ["call", "<builtin>array", [C(3)], {}], []],
                                    ["assign", ["sub", "a", V("i")], ["/", V("i"), V("j")], [["i", C(0), C(3)], ["j", C(1), C(3)]]],
                                    ["assign", "<p>s", ADD(["sub", V("a"), C(1)], S), []]]))
+    add("double_negation", pg.P1([["if", ["expr", ["not", ["not", LT(S, C(1))]]], [["assign", "<p>s", ADD(S, C(2)), []]],
+                                   [["assign", "<p>s", ADD(S, C(-1)), []]]],
+                                  ["assign", "<p>s", ["if", ["not", ["and", ["not", ["not", GT(S, C(0))]], GT(DT, C(0))]], S, MUL(S, C(2))], []],
+                                  pg.STEP]))
     add("raise_guarded", pg.P1([["assign", "<p>s", ADD(S, C(1)), []],
                                 ["if", ["expr", GT(S, C(2))], [["raise", "ErrA", "too big"]], None], pg.STEP]))
     return progs
